@@ -20,8 +20,11 @@ func verifDoc2() (*openapi2.T, map[string]bool) {
 	minLen := verifNondetUint64("minLength")
 	maxf := verifNondetFloat64("maximum")
 	verifAssume(maxf == maxf)
-	schemes := [][]string{{"https"}, {"http"}, {"https", "http"}}[verifChoose("schemes", 3)]
-	doc := &openapi2.T{Swagger: "2.0", Info: openapi3.Info{Title: "t", Version: "1"}, Host: "h.example", BasePath: "/v1", Schemes: schemes,
+	// where the API lives: scheme list x host, as five combinations
+	origin := verifChoose("origin", 5)
+	schemes := [][]string{{"https"}, {"http"}, {"https", "http"}, {"https"}, {"https"}}[origin]
+	host := []string{"h.example", "h.example", "h.example", "h.example:8443", ""}[origin]
+	doc := &openapi2.T{Swagger: "2.0", Info: openapi3.Info{Title: "t", Version: "1"}, Host: host, BasePath: "/v1", Schemes: schemes,
 		Definitions: map[string]*openapi2.SchemaRef{"Item": {Value: &openapi2.Schema{Type: &openapi3.Types{"object"}, Properties: openapi2.Schemas{
 			"name": {Value: &openapi2.Schema{Type: &openapi3.Types{"string"}, MinLength: minLen}},
 		}}}},
@@ -89,7 +92,16 @@ func verifDoc2() (*openapi2.T, map[string]bool) {
 		case "accessCode":
 			o.AuthorizationURL, o.TokenURL = "https://a.example/auth", "https://a.example/token"
 		}
-		op.Security = &openapi2.SecurityRequirements{{"key": {}}, {"oauth": {"r"}}}
+		// the document requires the key; the operation inherits that, opts out with an empty list, or states its own alternatives
+		doc.Security = openapi2.SecurityRequirements{{"key": {}}}
+		switch verifChoose("opSecurity", 3) {
+		case 0:
+			feat["opSecurity:own"] = true
+			op.Security = &openapi2.SecurityRequirements{{"key": {}}, {"oauth": {"r"}}}
+		case 1:
+			feat["opSecurity:none"] = true
+			op.Security = &openapi2.SecurityRequirements{}
+		}
 	}
 	doc.Paths["/items/{id}"] = &openapi2.PathItem{Get: op, Post: post}
 	return doc, feat
@@ -130,7 +142,7 @@ func verifNoV3Refs(doc *openapi2.T) bool {
 	return ok
 }
 
-//verif:harness id=C17 tier=quick,thorough witness=end bounds="whole documents in the convertible fragment: one path with GET+POST, path/query/shared parameters, one body, two formData parameters or a shared formData parameter by reference (required flags, minLength, maximum symbolic), shared response with header, definitions by reference, apiKey/basic/oauth2 (4 flows); ToV3 result passes the real Validate and has the same paths, methods, operation ids, parameters and constraints; FromV3 of it describes the same API with OpenAPI 2 references only"
+//verif:harness id=C17 tier=quick,thorough witness=end bounds="whole documents in the convertible fragment: one path with GET+POST, path/query/shared parameters, one body, two formData parameters or a shared formData parameter by reference (required flags, minLength, maximum symbolic), shared response with header, definitions by reference, apiKey/basic/oauth2 (4 flows), document-level security with the operation inheriting / opting out with an empty list / stating two alternatives, origin in 5 combinations (https / http / both on h.example, https on h.example:8443, no host = base path only); ToV3 result passes the real Validate and has the same paths, methods, operation ids, parameters and constraints; FromV3 of it describes the same API with OpenAPI 2 references only"
 func verifH_C17_document() {
 	doc2, feat := verifDoc2()
 	doc3, err := ToV3(doc2)
@@ -204,15 +216,35 @@ func verifH_C17_document() {
 	item := doc3.Components.Schemas["Item"]
 	verifAssert(item != nil && item.Value != nil && item.Value.Properties["name"].Value.MinLength == doc2.Definitions["Item"].Value.Properties["name"].Value.MinLength, "C17 document: definitions become component schemas with the same constraints")
 	serversOK := len(doc3.Servers) == len(doc2.Schemes)
+	if doc2.Host == "" {
+		// no host: the API lives under the base path of whichever host serves the document (schemes cannot be said without a host)
+		serversOK = len(doc3.Servers) == 1 && doc3.Servers[0].URL == "/v1"
+	}
 	for k, sch := range doc2.Schemes {
-		if k < len(doc3.Servers) && doc3.Servers[k].URL != sch+"://h.example/v1" {
+		if doc2.Host == "" {
+			break
+		}
+		if k < len(doc3.Servers) && doc3.Servers[k].URL != sch+"://"+doc2.Host+"/v1" {
 			serversOK = false
 		}
 	}
+	verifKnown("C17-basepath-without-host-dropped", doc2.Host == "")
 	verifAssert(serversOK, "C17 document: host, base path and schemes become servers, one per scheme")
+	verifKnown("C17-basepath-without-host-dropped", false)
 	if feat["security"] {
 		ss := doc3.Components.SecuritySchemes
 		verifAssert(ss["key"] != nil && ss["key"].Value.Type == "apiKey" && ss["key"].Value.In == "header" && ss["key"].Value.Name == "X-Key" && ss["basic"] != nil && ss["basic"].Value.Type == "http" && ss["basic"].Value.Scheme == "basic" && ss["oauth"] != nil && ss["oauth"].Value.Type == "oauth2" && ss["oauth"].Value.Flows != nil, "C17 document: security definitions become the corresponding schemes")
+		// an operation's security list means the same after conversion: absent = inherit, empty = no security, else its alternatives
+		os3 := pi.Get.Security
+		switch {
+		case feat["opSecurity:own"]:
+			verifAssert(os3 != nil && len(*os3) == 2, "C17 document: an operation's own security alternatives are kept")
+		case feat["opSecurity:none"]:
+			verifAssert(os3 != nil && len(*os3) == 0, "C17 document: an operation that opts out of security (security: []) still opts out")
+		default:
+			verifAssert(os3 == nil, "C17 document: an operation without a security list still inherits the document's")
+		}
+		verifAssert(len(doc3.Security) == 1 && len(doc3.Security[0]) == 1 && doc3.Security[0]["key"] != nil, "C17 document: the document's security requirement is kept")
 		if ss["oauth"] != nil && ss["oauth"].Value.Flows != nil {
 			so := doc2.SecurityDefinitions["oauth"]
 			fl := ss["oauth"].Value.Flows
@@ -247,7 +279,9 @@ func verifH_C17_document() {
 		}
 		sameSchemes = sameSchemes && found
 	}
-	verifAssert(sameSchemes && back.Host == "h.example" && back.BasePath == "/v1", "C17 back: host, base path and every scheme come back")
+	verifKnown("C17-basepath-without-host-dropped", doc2.Host == "")
+	verifAssert((sameSchemes || doc2.Host == "") && back.Host == doc2.Host && back.BasePath == "/v1", "C17 back: host (with its port), base path and every scheme come back")
+	verifKnown("C17-basepath-without-host-dropped", false)
 	bpi := back.Paths["/items/{id}"]
 	verifAssert(bpi != nil && bpi.Get != nil && bpi.Post != nil && bpi.Get.OperationID == "getItem" && bpi.Post.OperationID == "postItem", "C17 back: same paths, methods and operation ids")
 	if bpi == nil || bpi.Get == nil || bpi.Post == nil {
@@ -296,7 +330,15 @@ func verifH_C17_document() {
 		verifAssert(bs["key"] != nil && bs["key"].Type == "apiKey" && bs["key"].In == "header" && bs["key"].Name == "X-Key" && bs["basic"] != nil && bs["basic"].Type == "basic", "C17 back: apiKey and basic definitions come back")
 		bo, so := bs["oauth"], ss2["oauth"]
 		verifAssert(bo != nil && bo.Type == "oauth2" && bo.Flow == so.Flow && bo.AuthorizationURL == so.AuthorizationURL && bo.TokenURL == so.TokenURL && len(bo.Scopes) == 1 && bo.Scopes["r"] == "read", "C17 back: the OAuth2 definition keeps its flow, URLs and scopes")
-		verifAssert(bpi.Get.Security != nil && len(*bpi.Get.Security) == 2, "C17 back: operation security requirements come back")
+		switch {
+		case feat["opSecurity:own"]:
+			verifAssert(bpi.Get.Security != nil && len(*bpi.Get.Security) == 2, "C17 back: operation security requirements come back")
+		case feat["opSecurity:none"]:
+			verifAssert(bpi.Get.Security != nil && len(*bpi.Get.Security) == 0, "C17 back: an operation that opts out of security still opts out")
+		default:
+			verifAssert(bpi.Get.Security == nil, "C17 back: an operation without a security list still inherits")
+		}
+		verifAssert(len(back.Security) == 1 && back.Security[0]["key"] != nil, "C17 back: the document's security requirement comes back")
 	}
 	b200 := bpi.Get.Responses["200"]
 	verifAssert(b200 != nil && b200.Description == "ok" && b200.Schema != nil && b200.Schema.Ref == "#/definitions/Item", "C17 back: response keeps description and schema reference")
